@@ -141,6 +141,18 @@ var paths = []string{"/", "/u", "/u/", "/u/h", "/u/h/", "/u/h/c", "/u/h/c/", "/u
 var depths = []string{"", "0", "1", "infinity", "2", "Infinity", " 1", "-1"}
 var overwrites = []string{"", "T", "F", "X", "t", "TT"}
 var dests = []string{"", "/d", "/u/h/c/d.ics", "http://example.org/d", "%zz", "http://[::1", "rel", ":", "/a%20b"}
+
+// every other shape url.Parse accepts: no path at all (scheme+host, scheme-relative,
+// only a query, only a fragment, userinfo/port), opaque references, "*", a
+// percent-encoded first byte, dot segments, relative paths, a very long path
+var destShapes = []string{"http://example.com", "//host", "?x=1", "#frag", "mailto:a@b", "urn:x", "*",
+	"http://user:pw@example.com:8080", "https://example.com:8443", "http://example.com?x=1", "http://example.com#f",
+	"%2Fd", "%2fu%2Fh", "/%2e%2e/x", "/d?x=1#f", "../up", "./d", "d/e", "//host/d", "http://example.com/", "/" + strings.Repeat("a", 3000),
+	"http://" + strings.Repeat("h", 300) + ".example/d", " /d", "/d ", "\\d", "file:///etc/passwd", "HTTP://EXAMPLE.COM/D"}
+
+func init() { dests = append(dests, destShapes...) }
+
+var destsBase = 9 // the first entries of dests are crossed with every Depth and Overwrite value
 var ctypes = []string{"", "application/xml", "text/xml; charset=utf-8", "TEXT/XML", "text/plain", "text/calendar", "text/calendar; charset=utf-8",
 	"text/vcard", "text/vcard;charset=utf-8", "application/xml; bad", "application/xml;charset", ";;;", "application/", "text/x-vcard", "application/xml+foo", "text/calendar; x=\"y"}
 
@@ -236,7 +248,16 @@ func main() {
 				case "COPY", "MOVE":
 					for _, d := range depths {
 						for _, o := range overwrites {
-							for _, ds := range dests {
+							for _, ds := range dests[:destsBase] {
+								q := base
+								q.depth, q.overwrite, q.dest = d, o, ds
+								variants = append(variants, &q)
+							}
+						}
+					}
+					for _, d := range []string{"", "0", "2"} {
+						for _, o := range []string{"", "F", "X"} {
+							for _, ds := range dests[destsBase:] {
 								q := base
 								q.depth, q.overwrite, q.dest = d, o, ds
 								variants = append(variants, &q)
